@@ -14,13 +14,13 @@ CONSTANTS
   MintAmts = {1, 3}
   PctMilli = 700
   MaxBurnNonce = 3
-  Staked = {"a1", "a2", "a3"}
-  Nonces = {0, 1, 2}
-  SigSeqs <- Multi4
+  Staked = {"a1", "a2"}
+  Nonces = {0, 1}
+  SigSeqs <- Seqs3
   BurnVals <- NoVals
-  Acceptance = "intended"
-  CountsUnverified = FALSE
-  RewardNeedsStake = FALSE
+  Acceptance = "written"
+  CountsUnverified = TRUE
+  RewardNeedsStake = TRUE
 VIEW StateView
-PROPERTIES P_C18_MintQuorum P_C18_ExactThreshold P_C18_NonceOnce P_C18_MintAmounts P_C19_BurnExact
+PROPERTIES P_C18_QuorumOfWellFormed P_C18_NonceOnce P_C18_AmountsUnlessUnstaked P_C19_BurnExact
 CHECK_DEADLOCK FALSE
